@@ -101,6 +101,30 @@ def key_params(e):
     return out
 
 
+def canon_field(s_):
+    return s_
+
+
+def replay_permissions(ctx, rep, rid):
+    """shared with C05: replay assigns the journalled permissions unconditionally, like the running server does"""
+    rep.rule(rid, 'replay of UpdatePermissions / CreateUser stores the journalled permissions as they are, None included (the running server clears the permissions on None; a replay that keeps the old ones gives removed permissions back after a restart)', floor=2, analysis='A9+A3')
+    import forms as forms_
+    US = 'server::state::system::UserState'
+    sites = forms_.field_assignments(ctx, US, 'permissions')
+    init = [x for x in sites if x[0] == 'server::state::system::SystemState::init']
+    if not init:
+        rep.anchor_lost(rid, 'UserState.permissions assigned in SystemState::init')
+    for fn, b_, bb_, ln, form in init:
+        okf = form.endswith('.permissions') and 'UpdatePermissions' in form
+        cond = [canon(e, 0, 2) for e, vals, _ in discr_literals_at(b_, bb_) if 'permissions' in canon(e, 0, 3)]
+        rep.ob(rid, fn, 'permissions := journalled permissions', okf, '%s:%s' % (b_.file, ln), form[-60:] if okf else 'UserState.permissions is assigned `%s`' % form[:100])
+        rep.ob(rid, fn, 'assigned unconditionally (None clears)', not cond, '%s:%s' % (b_.file, ln), None if not cond else
+               'the assignment is selected by a test of %s: a journalled removal of permissions (None) is skipped at replay, so the user gets the old permissions back after a restart' % cond)
+    other = [x for x in sites if x[0] != 'server::state::system::SystemState::init']
+    for fn, b_, bb_, ln, form in other:
+        rep.ob(rid, fn, 'writer of UserState.permissions', False, '%s:%s' % (b_.file, ln), 'UserState.permissions is written outside SystemState::init')
+
+
 def run(ctx, rep):
     from props import accessors as _acc
     _acc.check(ctx, rep, 'C09', 'R09.acc')
@@ -396,6 +420,29 @@ def run(ctx, rep):
                'Permissions::to_bytes emits [%s] but from_bytes stores the values as [%s]: a flag is encoded from / decoded into another one' % (' '.join(x), ' '.join(y)))
         flags = {f for f in x if f.startswith(('manage_', 'read_', 'poll_', 'send_'))}
         rep.ob('R09.i', PW + 'to_bytes', 'all 14 distinct flag names covered', len(flags) >= 14 and len(x) >= 20, None, '%d flag positions, %d distinct flags' % (len(x), len(flags)))
+
+    # ------------------------------------------------------------ R09.k removed permissions stay removed after a restart
+    replay_permissions(ctx, rep, 'R09.k')
+
+    # ------------------------------------------------------------ R09.l revoked HTTP tokens stay revoked: one time unit for exp, revocation expiry and the cleaner
+    rep.rule('R09.l', 'a logged-out (revoked) access token stays refused until it expires: token expiry, revocation expiry and the clock the cleaner compares them with are all in seconds; a revoked token is dropped only when expiry <= now', floor=5, analysis='A13 units + A10')
+    import forms as forms_
+    J = 'server::http::jwt::jwt_manager::JwtManager'
+    CL = 'server::http::jwt::cleaner::start_expired_tokens_cleaner'
+    forms_.check_call_args(ctx, rep, 'R09.l', {CL: {'delete_expired_revoked_tokens': ['IggyTimestamp::to_secs(IggyTimestamp::now())']}}, skip_self=True, cd=3)
+    ag = forms_.aggregate_forms(ctx, J + '::generate', 'server::http::jwt::json_web_token::JwtClaims')
+    if not ag:
+        rep.anchor_lost('R09.l', 'JwtClaims built in JwtManager::generate')
+    else:
+        f_ = ag[0][0]
+        for fld in ('iat', 'exp', 'nbf'):
+            v = f_.get(fld, '')
+            ok = 'IggyTimestamp::to_secs(IggyTimestamp::now())' in v and 'micros' not in v and 'millis' not in v
+            rep.ob('R09.l', J + '::generate', 'claim %s in seconds' % fld, ok, ag[0][1], v[:90] if ok else 'claim `%s` is computed as `%s`' % (fld, v[:120]))
+    check_comparisons(ctx, rep, 'R09.l', {J + '::delete_expired_revoked_tokens': ['re:^\\(.*\\.1 <= now\\)$']})
+    rf_ = forms_.aggregate_forms(ctx, J + '::refresh_token', 'server::http::jwt::json_web_token::RevokedAccessToken')
+    okr = bool(rf_) and '.claims.exp' in canon_field(rf_[0][0].get('expiry', ''))
+    rep.ob('R09.l', J + '::refresh_token', 'revocation expiry = exp claim of the token', okr, rf_[0][1] if rf_ else None, None if okr else 'the revoked token is stored with expiry `%s`' % (rf_[0][0].get('expiry') if rf_ else None))
 
     # ------------------------------------------------------------ R09.e root protected
     rep.rule('R09.e', 'the root user can be neither deleted nor stripped of permissions: the mutation is dominated by the !is_root() edge', floor=3, analysis='A3')
